@@ -685,6 +685,7 @@ func (e *env) produce() bool {
 			votes = e.A.NewVoteListForLastBlock()
 		}
 		e.A.ProposeFinalizeBlock(votes)
+		bfix.WaitLocators(e.A) // fixture synchronisation, see lib/block
 		if errs := e.t.Errors(); len(errs) > 0 {
 			c.Violation("fixture.assert.produce", map[string]interface{}{"errors": errs, "height": h, "case": e.ci})
 			return false
